@@ -162,6 +162,17 @@ func peekAccNum(x *Exec, ctx sdk.Context) uint64 {
 func vestDeliver(x *Exec, f *vestFam, op string, vb func() error, h func(ctx sdk.Context) (sdk.Int, error)) string {
 	before := vestStateStr(x, f, x.ctx)
 	accBefore := snapshotAccounts(x, f, x.ctx)
+	supplyBefore := x.env.app.BankKeeper.GetSupply(x.ctx, x.env.app.CfevestingKeeper.Denom(x.ctx)).Amount
+	defer func() {
+		// C01: vesting messages never create or destroy coins
+		after := x.env.app.BankKeeper.GetSupply(x.ctx, x.env.app.CfevestingKeeper.Denom(x.ctx)).Amount
+		if !after.Equal(supplyBefore) {
+			x.hit("C01", "message-changed-supply", op, fmt.Sprintf("supply %s -> %s", supplyBefore, after))
+		}
+		if msg, broken := bankkeeper.TotalSupply(x.env.app.BankKeeper)(x.ctx); broken {
+			x.hit("C01", "supply-equals-balances", op, msg)
+		}
+	}()
 	res, _ := catch(vb)
 	paid := sdk.ZeroInt()
 	var evs []string
